@@ -85,8 +85,64 @@ def _quote_never_empty(repo, rep, rule="R02.1"):
               detail="; ".join(bad[:2]))
 
 
+def _dict_keys_and_nesting(repo, rep):
+    # (1) the *names* written by an attribute dictionary come from the
+    # value too: they must be checked or escaped before they are appended
+    f = repo.func(COMP + "Compiler.visit_DictAttributes")
+    r = L.emission(repo, f.qualname)
+    raw = False
+    seen = False
+    for w in A.walk(r.emission):
+        if isinstance(w, A.Frag) and w.tree is not None:
+            loops = [n for n in ast.walk(w.tree) if isinstance(n, ast.For)
+                     and isinstance(n.target, ast.Tuple)]
+            for lp in loops:
+                key = src(lp.target.elts[0])
+                for c in ast.walk(lp):
+                    if isinstance(c, ast.Call) and src(c.func) == "__append":
+                        seen = True
+                        uses = [x for x in ast.walk(c)
+                                if isinstance(x, ast.Name) and x.id == key]
+                        checked = any(
+                            isinstance(x, ast.Call) and any(
+                                isinstance(y, ast.Name) and y.id == key
+                                for y in ast.walk(x)) and
+                            src(x.func) not in ("__append",)
+                            for x in ast.walk(lp)
+                            if isinstance(x, ast.Call) and
+                            src(x.func) not in ("__append", "bool",
+                                                "TARGET.items"))
+                        if uses and not checked:
+                            raw = True
+    rep.check(seen and not raw, "R02.2", f.qualname, "the attribute names "
+              "taken from a dictionary are validated or escaped before they "
+              "are written (a key is part of the value: it may contain "
+              "white space, quotes or '>')", construct="dict-key-raw",
+              where=L.where(f))
+    # (2) one escape per inserted value: an expression type that compiles
+    # nested ${...} with the *escaping* engine it was given (string:) has
+    # its parts escaped, and the caller's assign_text escapes the joined
+    # result once more
+    se = repo.func("chameleon.tales.StringExpr.__call__")
+    passes_engine = any(isinstance(n, ast.Call) and len(n.args) == 2 and
+                        isinstance(n.args[1], ast.Name) and
+                        n.args[1].id == se.node.args.args[2].arg
+                        for n in ast.walk(se.node))
+    gc = repo.func(COMP + "ExpressionEngine.get_compiler")
+    t = L.text(gc.node)
+    outer_converts = "stmts = expression(target, engine)" in t and \
+        "method(target, char_escape, *args)" in t
+    rep.check(not (passes_engine and outer_converts), "R02.2", se.qualname,
+              "nested ${...} of a string: expression are converted without "
+              "escaping when the enclosing assign_text escapes the joined "
+              "result (one escape per inserted value)",
+              construct="nested-interpolation-escapes-twice",
+              where=L.where(se))
+
+
 def _content_total(repo, rep):
     _keyword_case(repo, rep)
+    _dict_keys_and_nesting(repo, rep)
     _quote_never_empty(repo, rep)
     from .c01 import content_node_total
     okc, detail = content_node_total(repo)
